@@ -105,11 +105,21 @@ pub fn generate(p: &str, seed: u64, index: u64) -> (Scenario, SchedCfg) {
             }
         }
         "C04" => {
-            if w < 60 {
+            let (mut s, c) = if w < 60 {
                 families::core(sub, "slowclone", &CoreOpts { slow: true, small_cap: true, min_values_factor: 3, ..Default::default() })
             } else {
                 families::core(sub, "slowclone.leavers", &CoreOpts { slow: true, small_cap: true, min_values_factor: 2, force_shared: true, leavers: true, ..Default::default() })
+            };
+            if r.below(3) == 0 {
+                // add-on: a second queue whose payload has no drop glue (pod.rs, seed C04e)
+                let cap = *r.pick(&[1u32, 1, 2, 3, 4]);
+                let mode = *r.pick(&[0u32, 0, 1, 2]);
+                let k = r.range(3, 8) as u32;
+                let flavour = r.below(2) as u32;
+                s.pod = cap | (mode << 4) | (k << 8) | (flavour << 16);
+                s.tags.push("pod".into());
             }
+            (s, c)
         }
         "C05" => {
             if w < 35 {
